@@ -6,6 +6,7 @@ import (
 	"context"
 
 	"github.com/avos-io/goat/gen/testproto"
+	"google.golang.org/protobuf/proto"
 )
 
 // H_C01_direct: N concurrent unary callers on one connection to a real Server over the
@@ -46,4 +47,104 @@ func H_C01_direct() {
 		vfAssert(impl.ncalls == n, "handler-ran-exactly-once-per-call")
 		vfReach("quiescent")
 	})
+}
+
+// H_C01_topo: one or two unary calls through the shipped topologies.
+// topo 1: client - shared channel - Demux (keyed by source) - one Serve per logical connection.
+// topo 2: client - Proxy - server (both attached to the proxy over channel transports).
+// topo 3: serialising transport: every envelope crosses the wire as Unmarshal(Marshal(x)).
+func H_C01_topo() {
+	topo := vfParam("topo", 1)
+	n := vfParam("callers", 1)
+	k := vfInt32("k")
+	impl := &zzImpl{}
+	impl.unary = func(ctx context.Context, in *testproto.Msg) (*testproto.Msg, error) {
+		return &testproto.Msg{Value: in.GetValue() ^ k}, nil
+	}
+	srv := zzNewServer("srv", impl, nil)
+	tcap := vfParam("tcap", 1)
+	c2x := make(chan *Rpc, tcap)
+	x2c := make(chan *Rpc, tcap)
+	var crw RpcReadWriter = NewGoatOverChannel(x2c, c2x)
+	switch topo {
+	case 1:
+		shared := NewGoatOverChannel(c2x, x2c)
+		d := NewDemux(context.Background(), shared, func(r *Rpc) string { return r.GetHeader().GetSource() }, func(rw RpcReadWriter) {
+			vfHarnessGoroutine()
+			srv.Serve(context.Background(), rw)
+		})
+		go func() {
+			vfHarnessGoroutine()
+			d.Run()
+		}()
+	case 2:
+		s2x := make(chan *Rpc, tcap)
+		x2s := make(chan *Rpc, tcap)
+		p := NewProxy(context.Background(), "proxy", func(id string) (RpcReadWriter, error) { return nil, errNoDial }, nil, nil)
+		p.AddClient("cli", NewGoatOverChannel(c2x, x2c))
+		p.AddClient("srv", NewGoatOverChannel(s2x, x2s))
+		go func() {
+			vfHarnessGoroutine()
+			p.Serve()
+		}()
+		go func() {
+			vfHarnessGoroutine()
+			srv.Serve(context.Background(), NewGoatOverChannel(x2s, s2x))
+		}()
+	default:
+		crw = &zzSerialising{rw: crw}
+		go func() {
+			vfHarnessGoroutine()
+			srv.Serve(context.Background(), &zzSerialising{rw: NewGoatOverChannel(c2x, x2c)})
+		}()
+	}
+	cc := NewClientConn(crw, "cli", "srv")
+	done := make([]bool, n)
+	errs := make([]error, n)
+	reqs := make([]int32, n)
+	reps := make([]int32, n)
+	for i := 0; i < n; i++ {
+		i := i
+		reqs[i] = vfInt32("req")
+		go func() {
+			out := &testproto.Msg{}
+			errs[i] = cc.Invoke(context.Background(), "/"+zzSvcName+"/Unary", &testproto.Msg{Value: reqs[i]}, out)
+			reps[i] = out.GetValue()
+			done[i] = true
+		}()
+	}
+	vfAtQuiescence(func() {
+		for i := 0; i < n; i++ {
+			vfAssert(done[i], "caller-returned")
+			if done[i] {
+				vfAssert(errs[i] == nil, "caller-succeeded")
+				vfAssert(reps[i] == reqs[i]^k, "reply-is-handlers-reply-to-own-request")
+			}
+		}
+		vfAssert(impl.ncalls == n, "handler-ran-exactly-once-per-call")
+		vfReach("quiescent")
+	})
+}
+
+var errNoDial = errNoDialT{}
+
+type errNoDialT struct{}
+
+func (errNoDialT) Error() string { return "no dial" }
+
+// zzSerialising passes every envelope through proto.Marshal / proto.Unmarshal, like the
+// WebSocket and HTTP transports do (a fresh copy with protobuf's normalisation arrives).
+type zzSerialising struct{ rw RpcReadWriter }
+
+func (z *zzSerialising) Read(ctx context.Context) (*Rpc, error) { return z.rw.Read(ctx) }
+func (z *zzSerialising) Write(ctx context.Context, r *Rpc) error {
+	b, err := proto.Marshal(r)
+	if err != nil {
+		return err
+	}
+	var c Rpc
+	if err := proto.Unmarshal(b, &c); err != nil {
+		return err
+	}
+	return z.rw.Write(ctx, &c)
 }
